@@ -10,60 +10,79 @@ import NgoVerif.Sem.Denote
 namespace NgoVerif.Sem
 variable (P : Params)
 
-def named (n : String) : GAtom → Prop := fun a => a.name = n
+/-- a set of predicate signatures, as a decidable test on (name, arity) -/
+abbrev Sig := String → Nat → Bool
 
-/-- interpretations that agree on every atom whose predicate name is not `n` -/
-def AgreeOffName (n : String) (I J : Interp) : Prop := ∀ a, a.name ≠ n → (I a ↔ J a)
+/-- all predicates of one name, whatever the arity -/
+def nameSig (n : String) : Sig := fun m _ => m == n
+/-- one predicate `n/k` -/
+def predSig (n : String) (k : Nat) : Sig := fun m j => m == n && j == k
+
+def named (n : Sig) : GAtom → Prop := fun a => n a.name a.args.length = true
+
+/-- interpretations that agree on every atom whose predicate is not in `n` -/
+def AgreeOffName (n : Sig) (I J : Interp) : Prop := ∀ a, ¬ named n a → (I a ↔ J a)
 
 mutual
 /-- no symbolic atom below has predicate name `n` -/
-def atomAvoids (n : String) : Atom → Bool
-  | .sym (.fn name _ _) => name != n
+def atomAvoids (n : Sig) : Atom → Bool
+  | .sym (.fn name args _) => !n name args.length
   | .sym _ => true
   | .cmp _ _ => true
   | .bool _ => true
   | .theory _ => true
   | .bagg _ _ _ _ es _ => bElemsAvoid n es
   | .agg _ es _ => cElemsAvoid n es
-def litsAvoid (n : String) : List (Sign × Atom) → Bool
+def litsAvoid (n : Sig) : List (Sign × Atom) → Bool
   | [] => true
   | (_, a) :: ls => atomAvoids n a && litsAvoid n ls
-def bElemsAvoid (n : String) : List (List Term × List (Sign × Atom)) → Bool
+def bElemsAvoid (n : Sig) : List (List Term × List (Sign × Atom)) → Bool
   | [] => true
   | (_, c) :: es => litsAvoid n c && bElemsAvoid n es
-def cElemsAvoid (n : String) : List ((Sign × Atom) × List (Sign × Atom)) → Bool
+def cElemsAvoid (n : Sig) : List ((Sign × Atom) × List (Sign × Atom)) → Bool
   | [] => true
   | ((_, a), c) :: es => atomAvoids n a && litsAvoid n c && cElemsAvoid n es
 end
 
-def blitAvoids (n : String) : BLit → Bool
+def blitAvoids (n : Sig) : BLit → Bool
   | .lit (_, a) => atomAvoids n a
   | .clit ((_, a), c) => atomAvoids n a && litsAvoid n c
 
-def bodyAvoids (n : String) (b : List BLit) : Bool := b.all (blitAvoids n)
+def bodyAvoids (n : Sig) (b : List BLit) : Bool := b.all (blitAvoids n)
+
+theorem evalTerms_length (e : Env) : ∀ (ts : List Term) (as : List Sym), evalTerms P e ts = some as → as.length = ts.length
+  | [], as, h => by simp only [evalTerms, Option.some.injEq] at h; subst h; rfl
+  | t :: ts, as, h => by
+    simp only [evalTerms] at h
+    split at h
+    · rename_i x xs hx hxs
+      simp only [Option.some.injEq] at h; subst h
+      simp [evalTerms_length e ts xs hxs]
+    · cases h
 
 theorem groundAtom_name (e : Env) (t : Term) (a : GAtom) (h : groundAtom P e t = some a) :
-    ∃ name args ext, t = .fn name args ext ∧ a.name = name := by
+    ∃ name args ext, t = .fn name args ext ∧ a.name = name ∧ a.args.length = args.length := by
   cases t with
   | fn name args ext =>
     cases ext with
     | false =>
       simp only [groundAtom, Option.map_eq_some_iff] at h
-      obtain ⟨as, _, rfl⟩ := h
-      exact ⟨name, args, false, rfl, rfl⟩
+      obtain ⟨as, has, rfl⟩ := h
+      exact ⟨name, args, false, rfl, rfl, evalTerms_length P e args as has⟩
     | true => simp [groundAtom] at h
   | _ => simp [groundAtom] at h
 
 mutual
-theorem atomSat_indep (n : String) (G : String → Prop) (s : Sign) :
+theorem atomSat_indep (n : Sig) (G : String → Prop) (s : Sign) :
     ∀ (a : Atom), atomAvoids n a = true → ∀ (e : Env) (H T H' T' : Interp),
       AgreeOffName n H H' → AgreeOffName n T T' → (atomSat P G e H T s a ↔ atomSat P G e H' T' s a)
   | .sym t, hav, e, H, T, H', T', aH, aT => by
-    have key : ∀ a, groundAtom P e t = some a → a.name ≠ n := by
+    have key : ∀ a, groundAtom P e t = some a → ¬ named n a := by
       intro a ha
-      obtain ⟨name, args, ext, rfl, hn⟩ := groundAtom_name P e _ a ha
-      simp only [atomAvoids, bne_iff_ne, ne_eq] at hav
-      rw [hn]; exact hav
+      obtain ⟨name, args, ext, rfl, hn, hl⟩ := groundAtom_name P e _ a ha
+      simp only [atomAvoids, Bool.not_eq_true'] at hav
+      simp only [named, hn, hl, hav]
+      exact Bool.false_ne_true
     cases s <;> simp only [atomSat]
     · constructor
       · rintro ⟨a, ha, h⟩; exact ⟨a, ha, (aH a (key a ha)).mp h⟩
@@ -91,7 +110,7 @@ theorem atomSat_indep (n : String) (G : String → Prop) (s : Sign) :
     have hT : cCount P G e T T es = cCount P G e T' T' es := by
       funext k; exact propext (cCount_indep n G es hav e T T T' T' aT aT k)
     simp only [atomSat, hH, hT]
-theorem litsSat_indep (n : String) (G : String → Prop) :
+theorem litsSat_indep (n : Sig) (G : String → Prop) :
     ∀ (ls : List (Sign × Atom)), litsAvoid n ls = true → ∀ (e : Env) (H T H' T' : Interp),
       AgreeOffName n H H' → AgreeOffName n T T' → (litsSat P G e H T ls ↔ litsSat P G e H' T' ls)
   | [], _, _, _, _, _, _, _, _ => by simp [litsSat]
@@ -99,7 +118,7 @@ theorem litsSat_indep (n : String) (G : String → Prop) :
     simp only [litsAvoid, Bool.and_eq_true] at hav
     simp only [litsSat, litSat]
     rw [atomSat_indep n G s a hav.1 e H T H' T' aH aT, litsSat_indep n G ls hav.2 e H T H' T' aH aT]
-theorem bTuples_indep (n : String) (G : String → Prop) :
+theorem bTuples_indep (n : Sig) (G : String → Prop) :
     ∀ (es : List (List Term × List (Sign × Atom))), bElemsAvoid n es = true → ∀ (e : Env) (H T H' T' : Interp),
       AgreeOffName n H H' → AgreeOffName n T T' → ∀ tup, (bTuples P G e H T es tup ↔ bTuples P G e H' T' es tup)
   | [], _, _, _, _, _, _, _, _, _ => by simp [bTuples]
@@ -114,7 +133,7 @@ theorem bTuples_indep (n : String) (G : String → Prop) :
     · rintro (⟨e', ha, ht, hc⟩ | h)
       · exact Or.inl ⟨e', ha, ht, (litsSat_indep n G c hav.1 e' H T H' T' aH aT).mpr hc⟩
       · exact Or.inr h
-theorem cCount_indep (n : String) (G : String → Prop) :
+theorem cCount_indep (n : Sig) (G : String → Prop) :
     ∀ (es : List ((Sign × Atom) × List (Sign × Atom))), cElemsAvoid n es = true → ∀ (e : Env) (H T H' T' : Interp),
       AgreeOffName n H H' → AgreeOffName n T T' → ∀ k, (cCount P G e H T es k ↔ cCount P G e H' T' es k)
   | [], _, _, _, _, _, _, _, _, _ => by simp [cCount]
@@ -133,7 +152,7 @@ theorem cCount_indep (n : String) (G : String → Prop) :
       · exact Or.inr h
 end
 
-theorem blitSat_indep (n : String) (G : String → Prop) (b : BLit) (hav : blitAvoids n b = true) (e : Env)
+theorem blitSat_indep (n : Sig) (G : String → Prop) (b : BLit) (hav : blitAvoids n b = true) (e : Env)
     (H T H' T' : Interp) (aH : AgreeOffName n H H') (aT : AgreeOffName n T T') :
     blitSat P G e H T b ↔ blitSat P G e H' T' b := by
   cases b with
@@ -159,7 +178,7 @@ theorem blitSat_indep (n : String) (G : String → Prop) (b : BLit) (hav : blitA
              fun x => (atomSat_indep P n G s a hav.1 e' T T T' T' aT aT).mpr
                (h2 ((litsSat_indep P n G cond hav.2 e' T T T' T' aT aT).mp x))⟩
 
-theorem bodySat_indep (n : String) (G : String → Prop) (b : List BLit) (hav : bodyAvoids n b = true) (e : Env)
+theorem bodySat_indep (n : Sig) (G : String → Prop) (b : List BLit) (hav : bodyAvoids n b = true) (e : Env)
     (H T H' T' : Interp) (aH : AgreeOffName n H H') (aT : AgreeOffName n T T') :
     bodySat P G e H T b ↔ bodySat P G e H' T' b := by
   simp only [bodyAvoids, List.all_eq_true] at hav
